@@ -1,5 +1,6 @@
 import GomlVerif.Driver.C04
 import GomlVerif.Driver.C05
+import GomlVerif.Driver.C08
 import GomlVerif.Driver.C06
 import GomlVerif.Driver.C10
 import GomlVerif.Driver.C12
@@ -11,12 +12,19 @@ import GomlVerif.Driver.C11
 import GomlVerif.Driver.C19
 import GomlVerif.Driver.C13
 import GomlVerif.Driver.C16
+import GomlVerif.Driver.SrcRun
+import GomlVerif.Driver.C18
+import GomlVerif.Driver.C14
+import GomlVerif.Driver.C07
+import GomlVerif.Driver.C03
 import GomlVerif.Driver.C09
 
 def main (args : List String) : IO UInt32 := do
   match args with
   | ["c04"] => Goml.Driver.C04.main; return 0
   | ["c05"] => Goml.Driver.C05.main; return 0
+  | ["c08"] => Goml.Driver.C08.main; return 0
+  | ["c08sim"] => Goml.Driver.C08.mainSim; return 0
   | ["c06"] => Goml.Driver.C06.main; return 0
   | ["c10"] => Goml.Driver.C10.main; return 0
   | ["c12"] => Goml.Driver.C12.main; return 0
@@ -29,5 +37,10 @@ def main (args : List String) : IO UInt32 := do
   | ["c19"] => Goml.Driver.C19.main; return 0
   | ["c13"] => Goml.Driver.C13.main; return 0
   | ["c16"] => Goml.Driver.C16.main; return 0
+  | ["srcsem"] => Goml.Driver.SrcRun.main; return 0
+  | ["c18"] => Goml.Driver.C18.main; return 0
+  | ["c14"] => Goml.Driver.C14.main; return 0
+  | ["c07"] => Goml.Driver.C07.main; return 0
+  | ["c03"] => Goml.Driver.C03.main; return 0
   | ["c09"] => Goml.Driver.C09.main; return 0
   | _ => IO.eprintln "usage: gomlmodel <c05|…> < lines"; return 2
